@@ -92,7 +92,7 @@ struct MethodView {
     int shape, inst;
     yorel::yomm2::detail::method_info* info;
     std::size_t* slots_strides;
-    void* body[MAXDEF];
+    void* body[MAXDEF_BIG];
 };
 
 struct VptrProbe { // result of constructing a virtual_ptr and reading it back
